@@ -77,6 +77,8 @@ theorem statusInv_stable : Stable StatusInv where
   argv s i v h := statusInv_of_fields h rfl rfl
   argc s n h := statusInv_of_fields h rfl rfl
   close s f h := statusInv_of_fields h rfl rfl
+  fname s v h := statusInv_of_fields h rfl rfl
+  fsep s v h := statusInv_of_fields h rfl rfl
   enter s h := statusInv_of_fields h rfl rfl
   leave s h := statusInv_of_fields h rfl rfl
   take s r s1 h hn := by
